@@ -24,6 +24,9 @@ const (
 )
 
 // H is a stored header in typed form.
+// Hash is the header hash type.
+type Hash = chainhash.Hash
+
 type H struct {
 	Hash, Prev, Merkle chainhash.Hash
 	Height, Version    int32
@@ -100,9 +103,12 @@ func Inv(hs []H, forbidden []chainhash.Hash) bool {
 			cs = append(cs, !vh.HashEq(f, h.Hash))
 		}
 	}
-	// H2 genesis
+	// H2 genesis; its previous-hash field (all zeroes on every network) is nobody's hash
 	g := hs[0]
 	cs = append(cs, g.Height == 0, g.State == L, vh.BigEq(g.CW, g.W))
+	for j := range hs {
+		cs = append(cs, !vh.HashEq(hs[j].Hash, g.Prev))
+	}
 	for i := 1; i < n; i++ {
 		h := hs[i]
 		cs = append(cs, h.Height >= 1)
